@@ -86,14 +86,14 @@ def run_lemmas(ctx, lemmas, procs=16):
                         tp = time.time()
                         for d in range(1, 16):
                             try:
-                                nxt = e2run.probe_prefixes(prog, l.entry, o, d, ls[0].intr, deadline_s=8)
+                                nxt = e2run.probe_prefixes(prog, l.entry, o, d, ls[0].intr, deadline_s=max(1.0, 9 - (time.time() - tp)))
                             except e2run.EngineError:
                                 break       # probe too expensive at this depth: keep the previous split
                             if len(nxt) == len(prefs) and d > 3 and all(ex for _, ex in nxt):
                                 prefs = nxt
                                 break       # every path already makes fewer choices than d
                             prefs = nxt
-                            if len(prefs) >= 400 or time.time() - tp > 6:
+                            if len(prefs) >= 200 or time.time() - tp > 5:
                                 break
                     else:
                         prefs = e2run.probe_prefixes(prog, l.entry, o, l.split_depth, ls[0].intr)
